@@ -10,7 +10,9 @@ ENCODED = ["MachineState::trail (TrailRef::Ref arms: HeapCell, StackCell, AttrVa
            "delete_all_attributes_from_var, delete_from_attributed_variable_list, "
            "put_to_attributed_variable_list, fetch_global_var, store_backtrackable_global_var): "
            "each heap-cell / global-slot store has a trail entry of the required kind naming the "
-           "same location"]
+           "same location",
+           "every function that pushes TrailEntry values itself (get_continuation_chunk's closure): a stack "
+           "cell below b is never overwritten without an entry (z3 over loc, b and the path conditions)"]
 ASSUME = ["hb / b are the heap top / choice point recorded by the newest choice point (their "
           "maintenance by try/retry/trust is outside)",
           "sufficiency: h older than the newest choice point => an entry of the cell's kind with "
